@@ -35,7 +35,11 @@ func SplitRawStatements(filepath, s string) ([]*RawStatement, error) {
 			if err := lex.NextToken(); err != nil {
 				return nil, err
 			}
+			// The next statement starts at its first comment, if any: comments are preserved.
 			firstPos = lex.Token.Pos
+			if len(lex.Token.Comments) > 0 {
+				firstPos = lex.Token.Comments[0].Pos
+			}
 			continue
 		}
 
